@@ -20,6 +20,7 @@ from .transforms import (
 )
 from .utils import (
     AspireFile,
+    _dtype_to_name,
     function_id,
     load_from_h5_file,
     recursively_save_to_h5_file,
@@ -715,6 +716,7 @@ class Aspire:
             "flow_backend": self.flow_backend,
             "flow_kwargs": self.flow_kwargs,
             "eps": self.eps,
+            "dtype": _dtype_to_name(self.dtype),
         }
         if hasattr(self, "_last_sampler_type"):
             config["sampler_type"] = self._last_sampler_type
@@ -832,7 +834,9 @@ class Aspire:
         config_dict["log_likelihood"] = log_likelihood
         config_dict["log_prior"] = log_prior
 
-        aspire = Aspire(**config_dict)
+        # Flow options were given to the constructor as **kwargs
+        flow_kwargs = config_dict.pop("flow_kwargs", None) or {}
+        aspire = Aspire(**config_dict, **flow_kwargs)
 
         with AspireFile(file_path, "r") as h5_file:
             if flow_path in h5_file:
